@@ -134,6 +134,22 @@ func GenLeaf(t *rapid.T, tab Table, o ClauseOpt) Clause {
 			for i := range li {
 				li[i] = intConstFor(t, c)
 			}
+			if rapid.IntRange(0, 5).Draw(t, "denselist") == 0 {
+				// a long list that almost covers a range of consecutive integers around the column's small values: as many
+				// entries as the range is wide, but with repeats, so some integers of the range are missing
+				a := rapid.IntRange(-6, 0).Draw(t, "densemin")
+				w := rapid.IntRange(16, 24).Draw(t, "densewidth")
+				li = make([]int, w)
+				for i := range li {
+					li[i] = a + rapid.IntRange(0, w-1).Draw(t, "denseval")
+				}
+				li[rapid.IntRange(0, w-1).Draw(t, "densepos")] = a
+				if li[0] != a {
+					li[0] = a + w - 1
+				} else {
+					li[w-1] = a + w - 1
+				}
+			}
 			l = Clause{Op: "leaf", Col: c.Name, Comp: "in", Arg: "list", LI: li, ListForm: rapid.IntRange(0, 2).Draw(t, "listform")}
 		case pick == 5:
 			l = NoArg(c.Name, rapid.SampledFrom([]string{"isnull", "isnotnull"}).Draw(t, "comp"))
